@@ -1,5 +1,5 @@
 """C05 — a resize writes every destination pixel and nothing else (DESIGN §4 C05)."""
-from ..engines import flow, views
+from ..engines import flow, views, row_coverage, index_rules
 from ..facts import CheckError
 from ..progs import programs
 
@@ -91,3 +91,5 @@ def run(rep, tier):
         rep.set_cfg(cfg)
         must_write(rep, prog, "C05.must-write")
         views.rows_bounded(rep, prog, "C05.rows-bounded")
+        row_coverage.group_tail(rep, prog, "C05.kernel-rows")
+        index_rules.cropped_row_slices(rep, prog, "C05.view-rect")
